@@ -55,6 +55,9 @@ func GenOps(rt *rapid.T, n int, kinds []string) []Op {
 			op.A = rapid.IntRange(0, 7).Draw(rt, "which")
 			op.B = rapid.IntRange(0, 31).Draw(rt, "chain")
 			op.On = rapid.Bool().Draw(rt, "small")
+			if rapid.IntRange(0, 3).Draw(rt, "aged") == 0 {
+				op.Val = []byte{1}
+			}
 		}
 		ops = append(ops, op)
 	}
